@@ -3,22 +3,22 @@
    Layers: L0 plain map (Dl/Map.v), L1 tree (Dl/Tree.v), L2 blob mirror (Dl/Blob.v).
    H : bytes -> bytes is an arbitrary hash function; the only assumption made of it is that it never
    returns the empty string (the Auto insert location reads a seed byte), stated where needed.
-   KnownClass = known_hist / known_top / known_hist2 (Dl/History.v): batch_insert the plain map rejects
-   (duplicate key or hash: F-C18-1, F-C18-3), upsert with the hash of another leaf (F-C18-2),
-   insert at a stale block index (F-C18-4). *)
+   After the repairs a9e08b84 / c5be66b8 / 9e5ac516 in /repo there is no KnownClass any more: the former
+   classes (batch with a duplicate, upsert with another leaf's hash, insert at a stale index) are ordinary
+   rejected operations of the mirror and are covered by the theorems below without extra hypotheses. *)
 From Coq Require Import Permutation.
 From ChiaV.Base Require Import Bytes Sha256.
 From ChiaV.Gen Require Import Dl.
-From ChiaV.Dl Require Import Format Map Tree Blob Abs Inv History Spec FormatProofs Refuted TreeProofs BlobLemmas BlobOps.
+From ChiaV.Dl Require Import Format Map Tree Blob Abs Inv History Spec PreFix FormatProofs Refuted TreeProofs BlobLemmas BlobOps BlobOps6 BlobOps7.
 Open Scope N_scope.
 
 (* ================= L1 -> L0, all histories ================= *)
 
-(* every L1 operation outside the known classes has the effect of the plain-map operation:
+(* every L1 operation has the effect of the plain-map operation:
    same success/failure, the refinement relation (same entries, duplicate-free keys and hashes,
    tree well-formed) is preserved, and a failed operation leaves the tree unchanged *)
 Theorem C18_tree_op_refines_map : forall H, (forall x, H x <> []) -> forall o ot m,
-  tree_refines H ot m -> known_top m o = false ->
+  tree_refines H ot m ->
   let '(ok1, ot1) := step1 H o ot in
   let '(ok0, m0) := step0 o m in
   ok1 = ok0 /\ tree_refines H ot1 m0 /\ (ok1 = false -> ot1 = ot).
@@ -26,7 +26,7 @@ Proof. exact step_refines. Qed.
 
 (* induction over the operation list, no bound *)
 Theorem C18_tree_history_refines_map : forall H, (forall x, H x <> []) -> forall ops,
-  known_hist ops [] = false -> tree_refines H (run1 H ops None) (run0 ops []).
+  tree_refines H (run1 H ops None) (run0 ops []).
 Proof. intros H Hne ops. exact (history_refines H Hne ops None [] (R_empty H)). Qed.
 
 (* lazy hashing: the root equals the independent recursive recomputation, everything is clean *)
@@ -43,7 +43,6 @@ Proof. exact proofs_valid. Qed.
 
 (* the two together, for every history followed by calculate_lazy_hashes *)
 Theorem C18_history_root_and_proofs : forall H, (forall x, H x <> []) -> forall ops,
-  known_hist ops [] = false ->
   let m := run0 ops [] in
   match run1 H (ops ++ [THash]) None with
   | None => m = []
@@ -63,101 +62,108 @@ Theorem C18_block_codec : forall b, wf_block b ->
 Proof. exact encode_block_ok. Qed.
 
 (* ================= L2 -> L1, staged per operation ================= *)
+(* Abs H s ot (Dl/Inv.v): s is the empty blob and ot = None, or Inv_tree H s t (the representation
+   invariant: block 0 is the root, every node's block decodes to the node with the right parent and
+   children, indexes distinct, free list = unreachable indexes, caches = leaves, ranges, L1 well-formed)
+   and ot = Some (erase t).
+   step_ok H o s ot t (Dl/Spec.v): the commuting square of one operation: no Panic / OutOfFuel, success
+   iff the L1 operation succeeds, Abs for the results, a failed operation leaves the blob unchanged.
+   Extra hypotheses, all forced by the proofs: H returns 32 bytes; inputs in i64 / Bytes32 range; the blob
+   has room for two more blocks below 2^32 (TreeIndex is u32, the model does not wrap). *)
 
 (* the Prop invariant implies what the executable abstraction computes on every history of the stream *)
 Theorem C18_inv_abs : forall H s t, Inv_tree H s t -> abs s = Some (Some (erase t)).
 Proof. exact Inv_tree_abs. Qed.
 
-(* mark_lineage_as_dirty: marks exactly the ancestors (stopping early is sound because dirty is
-   upward closed), touches no other block, no cache, not the free list *)
-Theorem C18_blob_mark_lineage : forall c s hole fuel,
-  ctx_rep s c hole -> closed c -> blen_ok s -> NoDup (ctx_indices c) -> hole < 2 ^ 32 -> Forall wf_frame c ->
-  (forall f, In f c -> ~ In (fr_idx f) (free s)) ->
-  (length c < fuel)%nat ->
-  match c with
-  | [] => True
-  | f :: _ =>
-      exists s', mark_lineage fuel (fr_idx f) s = (Ok tt, s') /\
-        ctx_rep s' (map set_dirty c) hole /\
-        (forall j, ~ In j (map fr_idx c) -> get_block s' j = get_block s j) /\
-        nblocks s' = nblocks s /\ blen_ok s' /\ free s' = free s /\ k2i s' = k2i s /\ h2i s' = h2i s
-  end.
-Proof. exact mark_ctx. Qed.
+(* insert: every location (Auto walk, AsRoot, reference key, raw index of a live leaf / of an internal
+   node / out of range / of a freed block with stale leaf bytes), every outcome (insert_first, insert_second,
+   insert_third_or_later, rejected).  The stale index (former F-C18-4) is now a rejected location. *)
+Theorem C18_blob_insert_refines_tree : forall H, (forall x, length (H x) = HASH_BYTES) ->
+  forall s ot k v h loc,
+  Abs H s ot -> in_range k v h -> room s ->
+  step_ok H (OInsert k v h loc) s ot (op_to_top s (OInsert k v h loc)).
+Proof. exact insert_step. Qed.
 
-(* upsert of a present key: Inv preserved, L1 effect.  The hypothesis on h is exactly the
-   complement of class F-C18-2 and is what the proof needs (the code does not check it). *)
-Theorem C18_blob_upsert_refines_tree : forall H s t k v h,
-  Inv_tree H s t -> v < 2 ^ 64 -> length h = HASH_BYTES ->
-  In k (it_keys t) ->
-  (forall i' k' v', In (i', k', v', h) (it_leaves t) -> k' = k) ->
-  exists s' t', upsert H k v h s = (Ok tt, s') /\ Inv_tree H s' t' /\
-    t_upsert H k v h (Some (erase t)) = (true, Some (erase t')).
-Proof. exact upsert_existing. Qed.
+(* delete: absent key, last leaf (blob cleared), child of the root (sibling moved to index 0 and its
+   children re-parented), inner leaf (sibling promoted, lineage marked dirty) *)
+Theorem C18_blob_delete_refines_tree : forall H s ot k,
+  Abs H s ot -> step_ok H (ODelete k) s ot (TDelete k).
+Proof. exact delete_step. Qed.
 
-(* insert into the empty blob (Auto or AsRoot) *)
-Theorem C18_blob_insert_first_refines_tree : forall H k v h loc,
-  k < 2 ^ 64 -> v < 2 ^ 64 -> length h = HASH_BYTES -> loc = LAuto \/ loc = LRoot ->
-  exists s', insert H k v h loc empty_blob = (Ok 0, s') /\ Inv_tree H s' (ILeaf 0 k v h) /\
-    t_insert H k v h (match loc with LAuto => TAuto | _ => TRoot end) None = (true, Some (erase (ILeaf 0 k v h))).
-Proof. exact insert_first_ok. Qed.
+(* upsert: present key (in place; rejected without any change if the new hash belongs to another leaf,
+   former F-C18-2) or absent key (insert at Auto) *)
+Theorem C18_blob_upsert_refines_tree : forall H, (forall x, length (H x) = HASH_BYTES) ->
+  forall s ot k v h,
+  Abs H s ot -> in_range k v h -> room s -> step_ok H (OUpsert k v h) s ot (TUpsert k v h).
+Proof. exact upsert_step. Qed.
 
-(* delete of the only leaf clears the blob *)
-Theorem C18_blob_delete_last_refines_tree : forall H s i k v h,
-  Inv_tree H s (ILeaf i k v h) ->
-  delete k s = (Ok tt, empty_blob) /\ t_delete k (Some (erase (ILeaf i k v h))) = (true, None).
-Proof. exact delete_last_ok. Qed.
+(* batch_insert: a batch the plain map rejects (a key or hash already present or twice in the batch, former
+   F-C18-1 / F-C18-3) is rejected by the blob as well and nothing changes; the accepted case is proved at
+   L1 (C18_tree_op_refines_map) and validated by execution at L2 *)
+Theorem C18_blob_batch_rejects_duplicates : forall H s ot items,
+  Abs H s ot -> m_batch items (ot_kv ot) = None ->
+  exists e, step2 H (OBatch items) s = (Err e, s) /\ step1 H (TBatch items) ot = (false, ot).
+Proof. exact batch_rejected_step. Qed.
 
-(* FULL STATEMENT (not proved; see notes/dl.md):
-     forall H ops, (forall x, H x <> []) -> ops_in_range ops -> known_hist2 H ops empty_blob [] = false ->
+(* under Abs and the L1 -> L0 relation, what get_keys_values returns is exactly the plain map *)
+Theorem C18_blob_content_is_map : forall H s ot m, Abs H s ot -> tree_refines H ot m -> content_is s m.
+Proof. exact content_is_map. Qed.
+
+(* FULL STATEMENT (not proved in full; see notes/dl.md):
+     forall H ops, (forall x, length (H x) = 32) -> Forall op_in_range ops -> rooms H ops empty_blob ->
        let '(s, m, fine) := run_joint H ops empty_blob [] in
        fine = true /\ Inv H s /\ good_state H s m
-   i.e. every operation preserves Inv with the L1 effect, check_integrity = Ok, reload (bytes s) equivalent to s.
-   Proved: the theorems above (insert into empty, delete of the last leaf, upsert of a present key,
-   mark_lineage_as_dirty, the codec, Inv => abs).  Missing: insert_second / insert_third_or_later / Auto walk,
-   delete with sibling promotion, batch_insert, calculate_lazy_hashes, check_integrity and reload from Inv.
-   For those the link is validated by execution: abs, inv_b, reload equivalence and the L1 step are
-   evaluated by the model runner after every operation of every history (flag 'a' in stream dl.hist). *)
-Theorem C18_blob_history_refines_map_partial : forall H s t k v h,
-  Inv_tree H s t -> v < 2 ^ 64 -> length h = HASH_BYTES -> In k (it_keys t) ->
-  (forall i' k' v', In (i', k', v', h) (it_leaves t) -> k' = k) ->
-  exists s' t', step2 H (OUpsert k v h) s = (Ok None, s') /\ Inv_tree H s' t' /\
-    abs s = Some (Some (erase t)) /\ abs s' = Some (Some (erase t')) /\
-    step1 H (TUpsert k v h) (Some (erase t)) = (true, Some (erase t')).
-Proof. exact upsert_step_link. Qed.
+   (good_state = content_is /\ check_integrity = Ok tt /\ reload (bytes s) equivalent to s).
+   PROVED below: the statement for ALL histories (induction over the list, no bound) made of insert (any
+   location), delete and upsert, with the clauses: no panic / fuel exhaustion, a failed operation changes
+   nothing (step_ok), Abs/Inv at the end, abs s = the L1 tree, the L1 tree refines the plain map the
+   history produces, get_keys_values = that map.
+   MISSING: accepted batch_insert, calculate_lazy_hashes and reload inside the L2 history, and the clauses
+   check_integrity s = Ok tt and reload (bytes s) ~ s derived from Inv (they need the iterator mirrors
+   lcf / pfi to be related to rep).  For those the link is validated by execution: abs, inv_b, wf_b, reload
+   equivalence and the L1 step are evaluated by the model runner after every operation of every history
+   (flag 'a' in stream dl.hist), and check_integrity / reload verdicts are compared with the implementation. *)
+Theorem C18_blob_history_refines_map_partial : forall H, (forall x, length (H x) = HASH_BYTES) -> forall ops,
+  Forall (fun o => is_idu o = true) ops -> Forall op_in_range ops -> rooms H ops empty_blob ->
+  let '(s', m', fine) := run_joint H ops empty_blob [] in
+  fine = true /\ exists ot', Abs H s' ot' /\ abs s' = Some ot' /\ tree_refines H ot' m' /\ content_is s' m'.
+Proof. intros H Hlen. exact (blob_history_idu_content H Hlen). Qed.
 
 (* ================= non-vacuity ================= *)
 Example C18_invariant_inhabited : exists s t, Inv_tree sha256 s t /\ abs s = Some (Some (erase t)).
 Proof. exact inv_inhabited. Qed.
 
-(* ================= known finding classes: the faithful model violates C18 there ================= *)
-(* F-C18-1 *)
-Theorem C18_batch_duplicate_refuted :
-  exists items, known_top [] (TBatch items) = true /\
-    let '(x, s) := step2 sha256 (OBatch items) empty_blob in
-    is_ok x = true /\ check_integrity sha256 s <> Ok tt.
-Proof. exact batch_duplicate_refuted. Qed.
+(* ================= the former finding classes (documentation of the pre-fix behaviour) ================= *)
+(* On the operations as they were before the repairs (Dl/PreFix.v: insert_pre, batch_insert_pre, upsert_pre)
+   the witness histories violate C18; on the repaired mirror the same calls return Err and change nothing. *)
+(* former F-C18-1, fixed by a9e08b84 *)
+Theorem C18_prefix_batch_duplicate_refuted :
+  (let '(x, s) := batch_insert_pre sha256 w_batch_dup empty_blob in
+   is_ok x = true /\ check_integrity sha256 s <> Ok tt) /\
+  exists e, batch_insert sha256 w_batch_dup empty_blob = (Err e, empty_blob).
+Proof. exact prefix_batch_duplicate_refuted. Qed.
 
-(* F-C18-2 *)
-Theorem C18_upsert_other_hash_refuted :
-  exists ops, known_hist2 sha256 ops empty_blob [] = true /\
-    let s3 := run2 sha256 (removelast ops) empty_blob in
-    let '(x, s) := step2 sha256 (last ops OHash) s3 in
-    check_integrity sha256 s3 = Ok tt /\ is_ok x = true /\
-    check_integrity sha256 s <> Ok tt /\ is_ok (reload (bytes_of_blocks (blocks s))) = false.
-Proof. exact upsert_other_hash_refuted. Qed.
+(* former F-C18-2, fixed by c5be66b8 *)
+Theorem C18_prefix_upsert_other_hash_refuted :
+  let s3 := run2 sha256 w_three empty_blob in
+  check_integrity sha256 s3 = Ok tt /\
+  (let '(x, s) := upsert_pre sha256 1 5 (hh 2) s3 in
+   is_ok x = true /\ check_integrity sha256 s <> Ok tt /\ is_ok (reload (bytes_of_blocks (blocks s))) = false) /\
+  exists e, upsert sha256 1 5 (hh 2) s3 = (Err e, s3).
+Proof. exact prefix_upsert_other_hash_refuted. Qed.
 
-(* F-C18-3 *)
-Theorem C18_batch_not_atomic_refuted :
-  exists o, known_top [] (match op_to_top empty_blob o with Some t => t | None => THash end) = true /\
-    let '(x, s) := step2 sha256 o empty_blob in
-    is_ok x = false /\ blocks s <> blocks empty_blob.
-Proof. exact batch_not_atomic_refuted. Qed.
+(* former F-C18-3, fixed by a9e08b84 *)
+Theorem C18_prefix_batch_not_atomic_refuted :
+  (let '(x, s) := batch_insert_pre sha256 w_batch_partial empty_blob in
+   is_ok x = false /\ blocks s <> blocks empty_blob) /\
+  exists e, batch_insert sha256 w_batch_partial empty_blob = (Err e, empty_blob).
+Proof. exact prefix_batch_not_atomic_refuted. Qed.
 
-(* F-C18-4 *)
-Theorem C18_stale_index_refuted :
-  exists ops, known_hist2 sha256 ops empty_blob [] = true /\
-    let s3 := run2 sha256 (removelast ops) empty_blob in
-    let '(x, s) := step2 sha256 (last ops OHash) s3 in
-    get_keys_values s3 = Ok [(1, 1)] /\ is_ok x = true /\
-    get_keys_values s = Ok [(2, 2); (3, 3)].
-Proof. exact stale_index_refuted. Qed.
+(* former F-C18-4, fixed by 9e5ac516 *)
+Theorem C18_prefix_stale_index_refuted :
+  let s3 := run2 sha256 w_two_minus_one empty_blob in
+  get_keys_values s3 = Ok [(1, 1)] /\
+  (let '(x, s) := insert_pre sha256 3 3 (hh 3) (LLeaf 2 SLeft) s3 in
+   is_ok x = true /\ get_keys_values s = Ok [(2, 2); (3, 3)]) /\
+  exists e, insert sha256 3 3 (hh 3) (LLeaf 2 SLeft) s3 = (Err e, s3).
+Proof. exact prefix_stale_index_refuted. Qed.
